@@ -11,7 +11,7 @@ claimed = [l.split("#")[0].strip() for l in (V / "harness/claimed.txt").read_tex
 seeds = [V / "seeded" / a for a in args] or sorted(p for p in (V / "seeded").iterdir() if (p / "patch.diff").exists())
 def run(sd):
     meta = json.loads((sd / "meta.json").read_text())
-    prop = meta["property"]
+    prop = meta.get("property") or sd.name.lstrip("R-").split("-")[0]
     if prop not in claimed:
         return sd.name, prop, "check-not-claimed", ""
     t = time.time()
